@@ -7,9 +7,12 @@
 From C13 Require Export Model.
 Open Scope N_scope.
 
+(* a function cell of S holds the value itself (M goes through Lambda objects) *)
+Record sfuninfo := { sf_pkg : pkgid; sf_val : Z; sf_export : bool }.
+
 Record sstate := {
   s_vheap : addr -> option varval;
-  s_fheap : addr -> option funinfo;
+  s_fheap : addr -> option sfuninfo;
   own_v : pkgid -> name -> option addr;
   own_f : pkgid -> name -> option addr;
   s_vnext : addr;
@@ -22,7 +25,7 @@ Definition sinit (p0 : pkgid) : sstate :=
      s_vnext := 0; s_fnext := 0; s_uses := fun _ => []; s_cur := p0 |}.
 
 Definition s_vexp (s : sstate) (a : addr) : bool := match s_vheap s a with Some vv => vv_export vv | None => false end.
-Definition s_fexp (s : sstate) (a : addr) : bool := match s_fheap s a with Some fi => fi_export fi | None => false end.
+Definition s_fexp (s : sstate) (a : addr) : bool := match s_fheap s a with Some fi => sf_export fi | None => false end.
 
 (* first used package with an exported own cell *)
 Fixpoint inherited {A} (own : pkgid -> name -> option A) (exp : A -> bool) (us : list pkgid) (n : name) : option A :=
@@ -53,7 +56,7 @@ Definition set_vexp (s : sstate) (a : addr) (e : bool) : sstate :=
 Definition set_fexp (s : sstate) (a : addr) (e : bool) : sstate :=
   match s_fheap s a with
   | Some fi => {| s_vheap := s_vheap s;
-                  s_fheap := upd (s_fheap s) a (Some {| fi_pkg := fi_pkg fi; fi_val := fi_val fi; fi_export := e |});
+                  s_fheap := upd (s_fheap s) a (Some {| sf_pkg := sf_pkg fi; sf_val := sf_val fi; sf_export := e |});
                   own_v := own_v s; own_f := own_f s; s_vnext := s_vnext s; s_fnext := s_fnext s;
                   s_uses := s_uses s; s_cur := s_cur s |}
   | None => s end.
@@ -102,13 +105,13 @@ Definition sstep (s : sstate) (o : op) : sstate :=
       | Some a =>
           match s_fheap s a with
           | Some fi => {| s_vheap := s_vheap s;
-                          s_fheap := upd (s_fheap s) a (Some {| fi_pkg := fi_pkg fi; fi_val := v; fi_export := fi_export fi |});
+                          s_fheap := upd (s_fheap s) a (Some {| sf_pkg := sf_pkg fi; sf_val := v; sf_export := sf_export fi |});
                           own_v := own_v s; own_f := own_f s; s_vnext := s_vnext s; s_fnext := s_fnext s;
                           s_uses := s_uses s; s_cur := s_cur s |}
           | None => s end
       | None =>
           {| s_vheap := s_vheap s;
-             s_fheap := upd (s_fheap s) (s_fnext s) (Some {| fi_pkg := s_cur s; fi_val := v; fi_export := false |});
+             s_fheap := upd (s_fheap s) (s_fnext s) (Some {| sf_pkg := s_cur s; sf_val := v; sf_export := false |});
              own_v := own_v s; own_f := upd2 (own_f s) (s_cur s) n (Some (s_fnext s));
              s_vnext := s_vnext s; s_fnext := s_fnext s + 1; s_uses := s_uses s; s_cur := s_cur s |}
       end
@@ -142,7 +145,7 @@ Definition sq_var_q (s : sstate) (p : pkgid) (n : name) (private : bool) : qres 
 Definition sq_fun (s : sstate) (c p : pkgid) (n : name) (private : bool) : qres :=
   match resolve_f s p n with
   | Some a => match s_fheap s a with
-              | Some fi => if private || fi_export fi || N.eqb c (fi_pkg fi) then QVal (fi_val fi) else QUnbound
+              | Some fi => if private || sf_export fi || N.eqb c (sf_pkg fi) then QVal (sf_val fi) else QUnbound
               | None => QUnbound end
   | None => QUnbound
   end.
@@ -187,18 +190,22 @@ Section Guard.
         (match own_v s p n with
          | Some a => match s_vheap s a with Some vv => match vv_val vv with Some _ => true | None => false end | None => false end &&
                      forallb (fun u => opt_addr_eqb (resolve_v s u n) None || opt_addr_eqb (resolve_v s u n) (Some a)) (s_users s p)
-         | None => true end) &&
+         | None => (* Package.Export looks the name up in p's table, which also holds inherited entries: it would
+                      mark and push the inherited cell instead of interning a symbol of p *)
+                   opt_addr_eqb (resolve_v s p n) None end) &&
         (match own_f s p n with
          | Some a => forallb (fun u => opt_addr_eqb (resolve_f s u n) None || opt_addr_eqb (resolve_f s u n) (Some a)) (s_users s p)
          | None => true end)
     | OUnexport n p =>
         mem p P &&
+        (* Package.Unexport looks the name up in p's table: on an inherited entry it would clear the export
+           flag of the HOME package's cell (known finding), so p must own the cell or see nothing *)
         (match own_v s p n with
          | Some a => match s_vheap s a with Some vv => match vv_pkg vv with Some _ => true | None => false end | None => false end
-         | None => true end) &&
+         | None => opt_addr_eqb (resolve_v s p n) None end) &&
         (match own_f s p n with
-         | Some a => match s_fheap s a with Some fi => N.eqb (fi_pkg fi) p | None => false end
-         | None => true end)
+         | Some a => match s_fheap s a with Some fi => N.eqb (sf_pkg fi) p | None => false end
+         | None => opt_addr_eqb (resolve_f s p n) None end)
     | OSetq n _ | ODefvar n _ =>
         (* every user of the current package already sees the cell being set (SetIfHas pushes it) *)
         match resolve_v s (s_cur s) n with
@@ -208,7 +215,9 @@ Section Guard.
     | ODefun n _ =>
         match resolve_f s (s_cur s) n with
         | Some a => opt_addr_eqb (own_f s (s_cur s) n) (Some a)     (* redefinition of an own function *)
-        | None => opt_addr_eqb (own_v s (s_cur s) n) None            (* no exported-unbound variable of that name *)
+        | None => (* no exported-unbound variable of that name, own OR inherited: DefLambda reads the
+                     package's table, which holds inherited entries too (known finding) *)
+                  opt_addr_eqb (resolve_v s (s_cur s) n) None
         end
     | OMakunbound n =>
         match resolve_v s (s_cur s) n with
@@ -221,6 +230,19 @@ Section Guard.
         | None => true end
     end.
 End Guard.
+
+(* ---- name discipline of a history: a name is used either as a variable or as a function (as in the
+   harness: setq/defvar/makunbound and the variable queries on the names VN, defun/fmakunbound and the
+   calls on the names FN, VN and FN disjoint; export/unexport on either).  Without it `export` of a
+   function name makes `p:name` (read as a VARIABLE) the unbound marker: finding C13-unbound-marker-as-value ---- *)
+Definition sorted_op (VN FN : list name) (o : op) : bool :=
+  match o with
+  | OSetq n _ | ODefvar n _ | OMakunbound n => mem n VN
+  | ODefun n _ | OFmakunbound n => mem n FN
+  | OExport n _ | OUnexport n _ => mem n VN || mem n FN
+  | OInPkg _ | OUse _ _ | OUnuse _ _ => true
+  end.
+Definition disjoint_names (VN FN : list name) : bool := forallb (fun n => negb (mem n FN)) VN.
 
 Fixpoint srun (P : list pkgid) (VN FN : list name) (s : sstate) (ops : list op) : list (list qres) :=
   match ops with
@@ -237,4 +259,12 @@ Fixpoint guard_prefix (P : list pkgid) (NM : list name) (s : sstate) (ops : list
   match ops with
   | [] => 0
   | o :: ops' => if guard_step P NM s o then S (guard_prefix P NM (sstep s o) ops') else 0
+  end.
+(* length of the longest prefix that is guarded AND keeps the name discipline (NM = VN ++ FN): the
+   domain of the refinement theorem *)
+Fixpoint sorted_guard_prefix (P : list pkgid) (VN FN : list name) (s : sstate) (ops : list op) : nat :=
+  match ops with
+  | [] => 0
+  | o :: ops' => if sorted_op VN FN o && guard_step P (VN ++ FN) s o
+                 then S (sorted_guard_prefix P VN FN (sstep s o) ops') else 0
   end.
